@@ -1,16 +1,21 @@
 from functools import wraps
 
 
-__all__ = ['memoize', 'singleton', 'memoize_attr_check']
+__all__ = ['memoize', 'singleton', 'memoize_attr_check', 'clear_cache', 'clear_all_caches']
 
 
 def _make_key(args, kwargs):
     return args, frozenset(kwargs.items())
 
 
+# All the caches created by memoize, so that they can be cleared together
+_MEMOIZE_CACHES = []
+
+
 def memoize(func):
     """Save results of function calls to avoid repeated calculation"""
     memo = {}
+    _MEMOIZE_CACHES.append(memo)
 
     @wraps(func)
     def wrapper(*args, **kwargs):
@@ -46,6 +51,19 @@ def clear_cache(func):
         func.__memoize_cache.clear()
     except AttributeError:
         pass
+
+
+def clear_all_caches():
+    """
+    Clear the caches of all functions decorated by memoize.
+
+    The cached results (e.g. subset masks) are keyed by the objects they were
+    computed from, not by their values, so this should be called whenever
+    these objects are changed in-place (data values, links, subset state
+    parameters).
+    """
+    for memo in _MEMOIZE_CACHES:
+        memo.clear()
 
 
 def memoize_attr_check(attr):
